@@ -368,6 +368,14 @@ func (rw *rewriter) rewrite() bool {
 						c.Replace(rw.simCall("Lock", recv))
 					case typ == "Mutex" && m == "Unlock":
 						c.Replace(rw.simCall("Unlock", recv))
+					case typ == "RWMutex" && m == "Lock":
+						c.Replace(rw.simCall("RWLock", recv))
+					case typ == "RWMutex" && m == "Unlock":
+						c.Replace(rw.simCall("RWUnlock", recv))
+					case typ == "RWMutex" && m == "RLock":
+						c.Replace(rw.simCall("RLock", recv))
+					case typ == "RWMutex" && m == "RUnlock":
+						c.Replace(rw.simCall("RUnlock", recv))
 					case typ == "Once" && m == "Do":
 						c.Replace(rw.simCall("OnceDo", recv, n.Args[0]))
 					case typ == "WaitGroup" && m == "Add":
